@@ -122,6 +122,17 @@ def space(tier):
                     for t in SMALL[:3]:
                         out.append(mk("%s { if (%s) { %s } else { for (j = 0; j < 2; j++) { %s } } }" % (lp, c, s, t), ("d4", lp, c, s, t)))
                         out.append(mk("if (%s) { %s { if (x & 1) { %s } else { %s } } }" % (c, lp, s, t), ("d4b", lp, c, s, t)))
+    # unbraced nests: an else belongs to the nearest if that has none
+    for c1 in conds[:2]:
+        for c2 in ["b & 1", "x & 2"]:
+            for s1, s2 in [("x = 1;", "x = 2;"), ("y += 1;", "RdV = x;")]:
+                out.append(mk("if (%s) if (%s) %s else %s" % (c1, c2, s1, s2), ("dangling", c1, c2, s1)))
+                out.append(mk("if (%s) if (%s) if (b & 4) %s else %s" % (c1, c2, s1, s2), ("dangling3", c1, c2, s1)))
+                out.append(mk("if (%s) x = 7; else if (%s) if (b & 4) %s else %s" % (c1, c2, s1, s2), ("dangling-elseif", c1, c2, s1)))
+                out.append(mk("if (%s) if (%s) %s else %s else x = 9;" % (c1, c2, s1, s2), ("paired", c1, c2, s1)))
+                out.append(mk("for (i = 0; i < 2; i++) if (%s) if (%s) %s else %s" % (c1, c2, s1, s2), ("for-dangling", c1, c2, s1)))
+                out.append(mk("if (%s) for (i = 0; i < 2; i++) if (%s) %s else %s" % (c1, c2, s1, s2), ("if-for-dangling", c1, c2, s1)))
+                out.append(mk("if (%s) { if (%s) %s } else %s" % (c1, c2, s1, s2), ("braced-outer", c1, c2, s1)))
     # the controlling expression: every expression kind (V stands for the tested variable) in every
     # position that tests a value against zero
     kinds = COND_KINDS if tier == "thorough" else COND_KINDS[:14]
